@@ -196,6 +196,8 @@ def streamStep (s : StreamDrv) (line : String) : StreamDrv × String :=
         ({ (s.setDb d) with sw := none }, s!"ok next={d.nextTs} valid={boolStr valid}")
   | ["sw-cancel"] => ({ s with sw := none }, "ok")
   | "cmp-restore" :: _ => (s, "ok")
+  -- free-running run with concurrent commits: not modelled, last op of its session
+  | "stream-race" :: _ => (s, "ok")
   | _ =>
     let (d, o) := mvccStep s.db line
     (s.setDb d, o)
